@@ -345,6 +345,14 @@ func TestVerifC11(t *testing.T) {
 		enc([]fam{{AddressFamily: []byte{0, 1, 1}, Addresses: []asn1.BitString{over, goodBlock}}})
 		enc([]fam{{AddressFamily: []byte{0, 1, 1}, Addresses: []asn1.BitString{goodBlock}}, {AddressFamily: []byte{0, 1, 1}, Addresses: []asn1.BitString{over}}})
 	}
+	// address families that are not IPv4 (empty, truncated, IPv6, other AFIs) over blocks that would contain the probing
+	// peers if they were read as IPv4
+	for _, family := range [][]byte{{}, {0}, {1}, {0, 0}, {0, 2}, {0, 2, 1}, {1, 1}, {0, 0, 1}, {1}} {
+		for _, blk := range []asn1.BitString{{Bytes: []byte{}, BitLength: 0}, {Bytes: []byte{11}, BitLength: 8}, {Bytes: []byte{192, 168}, BitLength: 16}} {
+			enc([]fam{{AddressFamily: family, Addresses: []asn1.BitString{blk}}})
+			enc([]fam{{AddressFamily: []byte{0, 1, 1}, Addresses: []asn1.BitString{{Bytes: []byte{10, 20}, BitLength: 16}}}, {AddressFamily: family, Addresses: []asn1.BitString{blk}}})
+		}
+	}
 	enc([]fam{})
 	enc([]fam{{AddressFamily: []byte{0, 1, 1}}})
 	enc([]fam{{AddressFamily: []byte{}, Addresses: []asn1.BitString{{Bytes: []byte{10}, BitLength: 8}}}})
